@@ -20,11 +20,16 @@ The oracle judges the IMPLEMENTATION transcript; the model transcript is only co
 
 Proof side besides KB.Props.C18: KB.Props.C18Cas (EXTRA_PROP_MODULES) — the revision allocator tso.go at atomic-instruction
 granularity, all goroutine sets and interleavings, tied to the source by regenerated shape facts (`source_matches_lts`);
-its dynamic cross-check (kbcheck/tsocas.py, harness/racetest TestTsoCas) runs last, as supporting evidence."""
+its dynamic cross-check (kbcheck/tsocas.py, harness/racetest TestTsoCas) runs last, as supporting evidence.
+KB.Props.C18Gen (EXTRA_PROP_MODULES too): the repair PROPOSED for the known finding `joined-fetch-stale`
+(proposed-fixes/C18-fresh-follower-read.diff, not applied to /repo) modelled as the diff is written, one atomic instruction
+per step with the generation counters themselves (KB.ServerGen): with it every served follower read is fresh under any
+interleaving (`follower_read_fresh_gen`), a reader goes round at most once more (`rejected_at_most_once`). It is a theorem
+about the proposal - nothing in /repo corresponds to it, so no correspondence suite runs it; the finding stays known."""
 import os
 import random
 
-EXTRA_PROP_MODULES = [("KB.Props.OrderC15", "KB.OrderC15"), ("KB.Props.C18Cas", "KB.C18Cas")]
+EXTRA_PROP_MODULES = [("KB.Props.OrderC15", "KB.OrderC15"), ("KB.Props.C18Cas", "KB.C18Cas"), ("KB.Props.C18Gen", "KB.C18Gen")]
 
 from .. import core
 
